@@ -103,6 +103,9 @@ pub struct Exec {
     pub waiters: BTreeMap<usize, Vec<usize>>,
     pub stats: ExecStats,
     pub aborting: bool,
+    /// stop scheduling: a failure was recorded or the step budget was hit
+    pub stop: bool,
+    pub in_coroutine: bool,
     pub failure: Option<(String, String)>,
     pub step_budget: u32,
     pub budget_hit: bool,
@@ -131,7 +134,12 @@ pub fn fail(sig: impl Into<String>, what: impl Into<String>) {
     if e.failure.is_none() {
         e.failure = Some((sig.into(), what.into()));
     }
-    e.aborting = true;
+    e.stop = true;
+    if e.in_coroutine && !e.aborting {
+        // never resumed again: the execution ends here, the stack is abandoned (not unwound,
+        // so no destructor of the code under test runs against an arbitrary lock state)
+        suspend_current();
+    }
 }
 
 // trace op codes (for distinctness hashing and reports)
@@ -158,10 +166,7 @@ pub fn sched_point(kind: u8) {
     }
     if e.stats.steps > e.step_budget {
         e.budget_hit = true;
-        e.aborting = true;
-        // unwind this thread now; the scheduler tears the rest down
-        suspend_current();
-        return;
+        e.stop = true;
     }
     suspend_current();
 }
@@ -552,6 +557,12 @@ pub struct Outcome {
 
 thread_local! {
     static STACKS: RefCell<Vec<DefaultStack>> = const { RefCell::new(Vec::new()) };
+    static LEAKED: Cell<u64> = const { Cell::new(0) };
+}
+
+/// Number of coroutine stacks abandoned so far by this process (failed / over-budget executions).
+pub fn leaked_stacks() -> u64 {
+    LEAKED.with(|l| l.get())
 }
 
 fn take_stack() -> DefaultStack {
@@ -653,6 +664,8 @@ pub fn run_execution(sched: Sched, events: Events, step_budget: u32, bodies: Vec
         waiters: BTreeMap::new(),
         stats: ExecStats::default(),
         aborting: false,
+        stop: false,
+        in_coroutine: false,
         failure: None,
         step_budget,
         budget_hit: false,
@@ -674,7 +687,7 @@ pub fn run_execution(sched: Sched, events: Events, step_budget: u32, bodies: Vec
 
     loop {
         let e = ex();
-        if e.aborting {
+        if e.stop || e.aborting {
             break;
         }
         if e.threads.iter().all(|t| t.status == Status::Finished) {
@@ -700,7 +713,9 @@ pub fn run_execution(sched: Sched, events: Events, step_budget: u32, bodies: Vec
         e.last_thread = t;
         e.threads[t].spinning = false;
         let co = cos[t].as_mut().unwrap();
+        e.in_coroutine = true;
         let r = std::panic::catch_unwind(std::panic::AssertUnwindSafe(|| co.resume(())));
+        ex().in_coroutine = false;
         match r {
             Ok(CoroutineResult::Yield(())) => {}
             Ok(CoroutineResult::Return(())) => {
@@ -725,18 +740,19 @@ pub fn run_execution(sched: Sched, events: Events, step_budget: u32, bodies: Vec
             }
         }
     }
-    // tear down: suspended coroutines are force-unwound; shim ops run straight through
+    // tear down: finished coroutines give their stack back; never-started ones only drop their
+    // closure; suspended ones (only after a failure or a budget hit) are abandoned, not unwound
     ex().aborting = true;
     for (i, slot) in cos.iter_mut().enumerate() {
         if let Some(mut co) = slot.take() {
             ex().current = i;
-            if !co.done() {
-                // started: unwinds the suspended stack; not started: drops the closure
+            if !co.started() {
                 let _ = std::panic::catch_unwind(std::panic::AssertUnwindSafe(|| co.force_unwind()));
             }
             if co.done() {
                 give_stack(co.into_stack());
             } else {
+                LEAKED.with(|l| l.set(l.get() + 1));
                 std::mem::forget(co);
             }
         }
